@@ -11,6 +11,7 @@ usage: selftest/run.py [-j N] [mutant-id-substring ...]   (no filter: all, and R
 """
 import os
 import queue
+import re
 import shutil
 import subprocess
 import sys
@@ -71,13 +72,15 @@ class Worker:
         ok, msg = apply(m, self.repo)
         if not ok:
             sh("git -C %s checkout -- ." % self.repo)
-            return (m["id"], "APPLY-FAILED", msg, time.time() - t)
+            return (m["id"], "APPLY-FAILED", msg, time.time() - t, [])
         try:
             outs = []
+            fired = []
             caught = named = False
             for pid in m["props"]:
                 r = self.check(pid, m.get("tier", "quick"))
                 outs.append(r.stdout)
+                fired += re.findall(r"^\s*rule (\S+): ", r.stdout, re.M)
                 if r.returncode == 1 and "VIOLATION property=%s" % pid in r.stdout:
                     caught = True
                     if any(e in r.stdout for e in m["expect"]):
@@ -89,7 +92,7 @@ class Worker:
             if m.get("expected_outcome") == "MISSED" and status == "MISSED":
                 status = "MISSED-AS-DOCUMENTED"
             detail = "" if status in ("CAUGHT", "MISSED-AS-DOCUMENTED") else "\n".join(outs)[-1500:]
-            return (m["id"], status, detail, time.time() - t)
+            return (m["id"], status, detail, time.time() - t, sorted(set(fired)))
         finally:
             sh("git -C %s checkout -- ." % self.repo)
 
@@ -128,6 +131,7 @@ def main():
         t.start()
     for t in ths:
         t.join()
+    fired = {r[0]: r[4] for r in results}
     results = [r[:3] for r in results]
     # pristine tree must be silent (checked in a clone of HEAD, same machinery)
     props = sorted({p for m in todo for p in m["props"]})
@@ -159,10 +163,11 @@ def main():
     shutil.rmtree(SCRATCH, ignore_errors=True)
     if not sel:
         with open(os.path.join(HERE, "RESULTS.md"), "w") as fh:
-            fh.write("# Self-test results (selftest/run.py)\n\n| mutant | checks | outcome |\n|---|---|---|\n")
+            fh.write("# Self-test results (selftest/run.py)\n\n| mutant | checks run | outcome | obligations that fired |\n|---|---|---|---|\n")
             by = {m["id"]: m for m in todo}
             for i, st, _ in results:
-                fh.write("| %s | %s | %s |\n" % (i, " ".join(by[i]["props"]) if i in by else "", st))
+                fh.write("| %s | %s | %s | %s |\n" % (i, " ".join(by[i]["props"]) if i in by else "", st,
+                                                 " ".join("`%s`" % k for k in fired.get(i, [])[:6])))
     bad = [r for r in results if r[1] not in ("CAUGHT", "SILENT", "MISSED-AS-DOCUMENTED")]
     print("%d mutants, %d not caught / alarms" % (len(todo), len(bad)))
     return 1 if bad else 0
